@@ -29,6 +29,12 @@ def options(binary):
     for sect in ui.split("\n["):
         m = re.search(r'^CallName="(\w+)="', sect, re.M)
         if not m:
+            ch = re.search(r'^Choices="([^"]*)"', sect, re.M)
+            if ch:     # multiple-choice numeric option (indent_with_tabs): bounds = smallest / largest choice
+                items = [c.split("=") for c in ch.group(1).split("|")]
+                if items and all(len(i) == 2 and re.match(r"^-?\d+$", i[1]) for i in items):
+                    vals = [int(i[1]) for i in items]
+                    bounds[items[0][0]] = (min(vals), max(vals))
             continue
         mn = re.search(r"^MinVal=(-?\d+)", sect, re.M)
         mx = re.search(r"^MaxVal=(-?\d+)", sect, re.M)
